@@ -259,6 +259,8 @@ def pr_contract(I, self, size):
 def _fast(ex, ms=1500):
     """String obligations: give z3 a short in-process budget; what it leaves `unknown` goes to the cvc5 portfolio (parallel)."""
     ex.check_timeout_ms = ms
+    ex.branch_timeout_ms = 400
+    ex.incremental_timeout_ms = 250
 
 
 def _with_pr(reg, ex):
